@@ -239,8 +239,16 @@ pub fn record<E: Engine>(eng: &mut E, out: &mut dyn Write, opts: &RecordOpts) ->
                     line = json!({"ev": "Panic", "during": ev});
                 }
             }
-            writeln!(out, "{line}").unwrap();
-            events += 1;
+            // an engine may expand one driven step into several trace lines
+            if let Some(Value::Array(ls)) = line.get("_lines") {
+                for l in ls {
+                    writeln!(out, "{l}").unwrap();
+                    events += 1;
+                }
+            } else {
+                writeln!(out, "{line}").unwrap();
+                events += 1;
+            }
             if line["ev"] == "Panic" {
                 break;
             }
